@@ -4,4 +4,4 @@ Extraction Language OCaml.
 (* is_empty / N.add only pull in the types the shared OCaml glue (sfio.ml) is written against *)
 Extraction "model.ml" validate validate_v0 ogc_valid is_simple is_simple_idx is_ring is_closed
   simple_def closed_def ring_def fin_pts rotate_ring reverse_ring
-  is_empty N.add N.of_nat N.to_nat Z.of_nat.
+  is_empty N.add N.of_nat N.to_nat Z.of_nat Z.add Z.mul Z.opp.
